@@ -162,6 +162,9 @@ enum Op {
     Send,
     Flush,
     Close,
+    /// a conversion of the `Framed` that must carry the write buffer over:
+    /// 0 into_map_codec, 1 replace_codec, 2 into_map_io, 3 into_parts + from_parts
+    Convert(u8),
 }
 
 fn item_bytes(k: usize, size: usize) -> Vec<u8> {
@@ -185,7 +188,7 @@ fn case_json(c: &Case) -> Value {
 
 fn case_from(v: &Value) -> Case {
     let sizes = v["sizes"].as_array().unwrap().iter().map(|s| s.as_u64().unwrap() as usize).collect();
-    let ops = v["ops"].as_array().unwrap().iter().map(|o| match o.as_str().unwrap() { "Ready" => Op::Ready, "Send" => Op::Send, "Flush" => Op::Flush, _ => Op::Close }).collect();
+    let ops = v["ops"].as_array().unwrap().iter().map(|o| match o.as_str().unwrap() { "Ready" => Op::Ready, "Send" => Op::Send, "Flush" => Op::Flush, c if c.starts_with("Convert") => Op::Convert(c.chars().filter(|x| x.is_ascii_digit()).collect::<String>().parse().unwrap_or(0)), _ => Op::Close }).collect();
     let parse_dev = |s: &str| -> Dev {
         let inner = &s[s.find('(').unwrap() + 1..s.len() - 1];
         let (i, a) = inner.split_once(", ").unwrap();
@@ -232,6 +235,22 @@ fn run_case(c: &Case, verbose: bool) -> Result<Outcome, (&'static str, String)> 
             t.op_io_calls = 0;
         }
         let buffered_before = accepted.len() - framed.io_ref().written.len();
+        if let Op::Convert(kind) = op {
+            let f = *Pin::into_inner(framed);
+            let f = match kind {
+                0 => f.into_map_codec(|c| c),
+                1 => f.replace_codec(BytesCodec),
+                2 => f.into_map_io(|io| io),
+                _ => Framed::from_parts(f.into_parts()),
+            };
+            framed = Box::pin(f);
+            may_send = false;
+            out.ops += 1;
+            if verbose {
+                println!("op {i} {:?}; {} bytes were buffered", op, buffered_before);
+            }
+            continue;
+        }
         let res: Poll<Result<(), io::Error>> = match op {
             Op::Ready => Sink::<Bytes>::poll_ready(framed.as_mut(), &mut cx),
             Op::Send => {
@@ -246,6 +265,7 @@ fn run_case(c: &Case, verbose: bool) -> Result<Outcome, (&'static str, String)> 
             }
             Op::Flush => Sink::<Bytes>::poll_flush(framed.as_mut(), &mut cx),
             Op::Close => Sink::<Bytes>::poll_close(framed.as_mut(), &mut cx),
+            Op::Convert(_) => unreachable!(),
         };
         may_send = *op == Op::Ready && matches!(res, Poll::Ready(Ok(())));
         let t = framed.io_ref();
@@ -436,7 +456,32 @@ pub fn run(args: &Args) -> i32 {
     // and the early `break` on close make prefixes cheap to skip: run lists that are not a proper
     // prefix of another list, i.e. those of full depth or ending in Close... simpler: run all
     // lists of exactly `depth` plus shorter lists ending in Close (nothing may follow a close).
-    let run_lists: Vec<&Vec<Op>> = lists.iter().filter(|l| l.len() == depth || l.last() == Some(&Op::Close)).collect();
+    let mut run_lists: Vec<&Vec<Op>> = lists.iter().filter(|l| l.len() == depth || l.last() == Some(&Op::Close)).collect();
+    // the same for lists of length depth-1 with one conversion of the Framed inserted at every
+    // position after the first start_send (each of the four conversions)
+    let conv_lists: Vec<Vec<Op>> = {
+        let mut v = vec![];
+        for l in lists.iter().filter(|l| (l.len() == depth - 1 || (l.len() < depth - 1 && l.last() == Some(&Op::Close))) && l.contains(&Op::Send)) {
+            let first_send = l.iter().position(|o| *o == Op::Send).unwrap();
+            for pos in first_send + 1..=l.len() {
+                if pos > 0 && l[pos - 1] == Op::Close {
+                    continue;
+                }
+                if pos < l.len() && l[pos] == Op::Send {
+                    continue; // a start_send must directly follow its poll_ready
+                }
+                for kind in 0..4u8 {
+                    let mut n = l.clone();
+                    n.insert(pos, Op::Convert(kind));
+                    v.push(n);
+                }
+            }
+        }
+        v
+    };
+    let n_plain = run_lists.len();
+    run_lists.extend(conv_lists.iter());
+    rep.set("op_lists_with_a_conversion_of_the_framed", run_lists.len() - n_plain);
     let devs = dev_sets(max_dev, positions);
     rep.set("op_lists", run_lists.len());
     rep.set("size_lists", size_lists.len());
@@ -462,9 +507,13 @@ pub fn run(args: &Args) -> i32 {
         if sends != sizes.len() {
             return p; // each op list is paired with size lists of exactly its number of sends
         }
+        let has_conv = ops.iter().any(|o| matches!(o, Op::Convert(_)));
         for d in &devs {
             if d.len() >= 3 && sizes.len() > 2 {
                 continue;
+            }
+            if has_conv && d.len() > 1 {
+                continue; // conversions: at most one transport deviation
             }
             let c = Case { sizes: sizes.clone(), ops: ops.clone(), devs: d.clone() };
             p.runs += 1;
